@@ -12,8 +12,18 @@ from vlib import core               # noqa: E402
 from props import cons_common as cc   # noqa: E402
 from synth_prefixes import last_state_text   # noqa: E402
 
-CONFIGS = [("eq_byz1", [1, 1, 1, 1], 1, 2), ("w_byz2", [2, 2, 1, 1], 2, 2)]
+CONFIGS = [("eq", [1, 1, 1, 1], 1), ("w", [2, 2, 1, 1], 1)]     # byz = proposer of round 1
 WEAK = ["PolProposalOverridesLock", "PrevoteIgnoresLock", "UnlockOnOlderPolka", "RelockKeepsRound"]
+
+
+INIT_ACT = '/\\ act = [name |-> "Init", n |-> "-", m |-> [t |-> "-", src |-> "-", r |-> -1, v |-> "-", pol |-> -2], k |-> "-"]'
+
+
+def reset_act(txt):
+    """the stage-2 corridor constrains act; the pasted initial state must not carry stage 1's last action"""
+    import re
+    parts = re.split(r'(?m)^(?=/\\ \w+ =)', txt)
+    return "\n".join(INIT_ACT if p.startswith("/\\ act =") else p.rstrip() for p in parts if p.strip())
 
 
 def main():
@@ -23,17 +33,25 @@ def main():
     budget = int(os.environ.get("SYNTH_TIMEOUT", "900"))
     binp = cc.build(ctx)
     try:
-        for tag, powers, bi, mr in CONFIGS:
+        for tag, powers, mr in CONFIGS:
             info = cc.run_driver(ctx, binp, {"mode": "info", "powers": powers, "byz": [], "maxround": mr + 1}, "info" + tag)
-            byz = [info["names"][bi]]
-            # stage 1, real spec
+            byz = [info["proposers"][1]]
+            if info["proposers"][0] in byz:
+                core.log("config %s: proposer of round 0 is the byzantine validator, skipped" % tag)
+                continue
+            tag = "%s_byz%d" % (tag, info["names"].index(byz[0]))
+            # stage 1, real spec, breadth-first inside a corridor (TLC as planner)
             m1 = cc.net_mc(ctx, "SynthF1_" + tag, info, byz, mr, lazy=False, view=False, invariants=["NoStageOneDecidedOthersLocked"])
-            r1 = ctx.tlc(m1, m1 + ".cfg", simulate="num=100000000", depth=90, seed=ctx.seed, timeout=budget, label="F1_" + tag)
+            d = ctx.spec_copy()
+            with open(os.path.join(d, m1 + ".cfg"), "a") as f:
+                f.write("CONSTRAINT CorridorStage1\n")
+            r1 = ctx.tlc(m1, m1 + ".cfg", timeout=budget, heap="12g", label="F1_" + tag)
             if not r1.violations:
                 core.log("stage 1 not reached for %s" % tag)
                 continue
             steps1 = cc.trace_to_sched(r1.violations[0]["trace"])["steps"]
-            init_txt = last_state_text(r1.out)
+            init_txt = reset_act(last_state_text(r1.out))
+            core.log("stage 1 for %s: %d steps" % (tag, len(steps1)))
             for weak in weaks:
                 name = "%s__%s__fork" % (weak, tag)
                 if os.path.exists(os.path.join(outdir, name + ".json")):
@@ -48,8 +66,8 @@ def main():
                 with open(os.path.join(d, mcname + ".cfg")) as f:
                     c = f.read()
                 with open(os.path.join(d, mcname + ".cfg"), "w") as f:
-                    f.write(c.replace("INIT Init", "INIT StageInit"))
-                r2 = ctx.tlc(mcname, mcname + ".cfg", simulate="num=100000000", depth=60, seed=ctx.seed + 1, timeout=budget, label=name)
+                    f.write(c.replace("INIT Init", "INIT StageInit") + "CONSTRAINT CorridorStage2\n")
+                r2 = ctx.tlc(mcname, mcname + ".cfg", timeout=budget, heap="12g", label=name)
                 if not r2.violations:
                     core.log("no fork found for %s" % name)
                     continue
